@@ -30,6 +30,42 @@ TO = EQ + ".transform.observation"
 SP = EQ + ".transform.specials"
 
 
+def rule_path_steps_disjoint(ctx):
+    """Object paths are compared step by step on "raw values" (object_path_to_raw_values): key steps become strings, index
+    steps become ints.  The wildcard index step `[*]` must become something that is NOT a string, or it is indistinguishable
+    from a key step spelled '*': `[a:b[*] = 1]` (any element of list b) and `[a:b.'*' = 1]` (entry '*' of dictionary b) are
+    then reported equivalent -- unsound.  In the index branch of the function every yielded value is an int conversion, a value
+    known to be an int, or a module-level sentinel; never a value its own guard compares with a string."""
+    run = ctx.run
+    prog = ctx.prog
+    R = "C09.type-guard"
+    fi = prog.func("stix2.equivalence.pattern.compare.comparison::object_path_to_raw_values")
+    branches = [x for x in body_walk(fi.node) if isinstance(x, ast.If) and "isinstance(" in norm(x.test) and "ListObjectPathComponent" in norm(x.test)]
+    if len(branches) != 1:
+        raise AnalysisError("object_path_to_raw_values: the index-step branch was not found")
+    ys = [y for st_ in branches[0].body for y in ast.walk(st_) if isinstance(y, ast.Yield)]
+    if len(ys) < 2:
+        raise AnalysisError("object_path_to_raw_values: fewer than 2 yields in the index-step branch")
+    modnames = {t.id for st_ in fi.module.tree.body if isinstance(st_, ast.Assign) for t in st_.targets if isinstance(t, ast.Name)}
+    bad = []
+    for y in ys[1:]:            # the first is the key the index applies to
+        v = y.value
+        if isinstance(v, ast.Call) and norm(v.func) == "int":
+            continue
+        if isinstance(v, ast.Name) and v.id in modnames:
+            continue
+        txt = norm(v)
+        str_tests = [norm(t) for t, pol, _ in guard_chain(y, stop=branches[0]) if pol and any(
+            isinstance(c_, ast.Constant) and isinstance(c_.value, str) for c_ in ast.walk(t)) and txt in norm(t)]
+        int_only = [norm(t) for t, pol, _ in guard_chain(y, stop=branches[0]) if pol and norm(t) == "isinstance(%s, int)" % txt]
+        if str_tests or not int_only:
+            bad.append("%s under %s" % (txt, str_tests or "no int test"))
+    run.check(not bad, R, key(fi.module.relpath, fi.qualname, "index-and-key-steps-disjoint"),
+              "an index step can be turned into a STRING raw value (the wildcard '*'): it compares equal to a key step with that "
+              "spelling, so [a:b[*] = 1] and [a:b.'*' = 1] -- different meanings -- are reported equivalent", file=fi.module.relpath,
+              line=ys[1].lineno, function=fi.qualname, expected="ints for numeric steps, a non-string sentinel for [*]", found=bad)
+
+
 def run(ctx):
     run = ctx.run
     run.explanation = (
@@ -56,6 +92,7 @@ def run(ctx):
     from .pitfalls import rule_groupby_sorted, rule_single_use_iterators
     ctx.do(rule_groupby_sorted, "C09.iterator-pitfalls", ("stix2.equivalence.pattern",))
     ctx.do(rule_single_use_iterators, "C09.iterator-pitfalls", ("stix2.equivalence.pattern",))
+    ctx.do(rule_path_steps_disjoint)
     # what the equivalence test compares is the model the parser builds: every operand of a chain is seen by the constructor
     from . import C10
     ctx.do(C10.rule_nodes_built_by_constructors, rule_id="C09.type-guard")
